@@ -89,6 +89,14 @@ add("C14", "fault_enumeration",
     "Trusted: nlrun panic capture. Resource classes (huge counts to size-like builtins, infinite streams) excluded by construction and counted.",
     "DESIGN.md §3 C14")
 
+add("C04", "exploration",
+    "exhaustive differential grid: every callable x argument tuples from a 54-value pool, all application forms of the statement evaluated and compared (equal canonical outcome or common failure)",
+    "~310 builtins/types plus 21 user callables (closures, defaults, splats, compositions, left/right sections, flips) x pool^k (k=1..3): "
+    "infix, call, bang, backtick, four section forms, apply, of, splat, op-assign (also with a self-referring right side), left section, and the "
+    "one-argument right-section rule for builtins.",
+    "Trusted: the forms on the other side of the differential, nlrun serialiser (functions compared as opaque). group_all compared as multiset.",
+    "DESIGN.md §3 C04")
+
 NOT_APPLICABLE = {
 }
 
